@@ -774,9 +774,12 @@ def space(tier):
     for ploidy, n in ((3, 2),) + (((3, 3),) if T else ()):
         cols = [c for c in itertools.product((0, 1, 2), repeat=ploidy) if len(set(c)) >= 2]
         firsts = [c for c in cols if tuple(sorted(c)) == c]
-        for f0 in itertools.product(firsts, repeat=n):
+        f0s = list(itertools.product(firsts, repeat=n))
+        if n == 3:
+            f0s = f0s[::10]  # 100 of the 1000 first phasings of three columns
+        for f0 in f0s:
             for p1 in itertools.product(cols, repeat=n):
-                if not T and (cols.index(p1[0]) + 2 * cols.index(p1[-1]) + firsts.index(f0[0])) % 3:
+                if (not T or n == 3) and (cols.index(p1[0]) + 2 * cols.index(p1[-1]) + firsts.index(f0[0])) % 3:
                     continue
                 yield {"kind": "poly", "ploidy": ploidy, "two_alts": True, "p": [[list(a) for a in f0], [list(a) for a in p1]]}
     # polyploid, one block, through the files (binds the command line to compare_block)
